@@ -30,9 +30,22 @@ def copies(mutate=None):
     return C
 
 
-class Char:
-    def __init__(self, fmt, mn, mx, step):
-        self.format, self.minValue, self.maxValue, self.minStep = fmt, mn, mx, step
+class _StubService:
+    class accessory:
+        aid = 1
+
+        @staticmethod
+        def get_next_id():
+            return 9
+
+
+def Char(fmt, mn, mx, step, M=None):
+    """the library's own Characteristic - of the copy under analysis, or of the installed module - so that whatever the class
+    defines besides the four declared attributes (properties, per-object caches) is there; only the service is a stand-in.
+    The type is a vendor uuid without an entry in the characteristic tables, so the declared metadata are exactly the arguments."""
+    mod = M if M is not None else real_char
+    return mod.Characteristic(_StubService(), "0000FF01-0000-1000-8000-0026BB765291", iid=9, format=fmt, perms=["pr", "pw"],
+                              min_value=mn, max_value=mx, min_step=step, value=None)
 
 
 # ------------------------------------------------------------------ number adapters (exact rationals in both modes)
@@ -97,7 +110,7 @@ def convert_unit(M, fmt, mn, mx, step, kind, lo, hi):
             else:
                 val = "%dE-9" % n  # decimal reading of the input, as a numeric string
                 vq = F(n, 10 ** 9)
-        ch = Char(fmt, mn, mx, step)
+        ch = Char(fmt, mn, mx, step, M)
         try:
             out = M.check_convert_value(val, ch)
         except M.FormatError:
@@ -168,9 +181,8 @@ def build_update_unit(M, real):
         fmt, mn, mx, step = ex.choice("config", [("int", -100, 100, 10), ("uint8", 0, 100, 1), ("int", None, None, 5)])
         n = ex.fresh_int("v", -300, 300)
         stored = ex.choice("stored_value", ["the-written-value", "another-value", "none"])
-        ch = Char(fmt, mn, mx, step)
-        ch.iid = 9
-        ch._value = ch.value = {"the-written-value": n, "another-value": 7, "none": None}[stored]
+        ch = Char(fmt, mn, mx, step, None if real else M)
+        ch._value = {"the-written-value": n, "another-value": 7, "none": None}[stored]
 
         class FakeService:
             accessory = type("A", (), {"aid": 1})
@@ -183,6 +195,29 @@ def build_update_unit(M, real):
         ex.tag(stored)
         ex.require(len(got) == 1 and got[0][0] == 1 and got[0][1] == 9, "build_update: one (aid, iid, value) entry per payload item")
         ex.require(got[0][2] == want, "build_update: the value is prepared with check_convert_value, whatever the characteristic currently holds")
+        return ex.observe("ok")
+    return h
+
+
+CHANGES = [("uint8", (0, 100, 1), (0, 100, 5)), ("int", (0, 100, 10), (5, 100, 10)), ("int", (0, 100, 10), (0, 50, 10)),
+           ("uint8", (0, 100, 5), (0, 100, None)), ("int", (None, None, None), (0, 100, 10)), ("int", (-100, 100, 10), (-95, 95, 5))]
+
+
+def rewrite_unit(M):
+    """two writes to ONE characteristic object whose declared metadata are reassigned in between (the BLE signature read assigns
+    minValue / maxValue / minStep on an existing object): the second value is prepared exactly as on a fresh characteristic
+    that declares the new metadata - nothing remembered from the first write may leak into it"""
+    def h(ex):
+        DM.reset()
+        fmt, a, b = ex.choice("change", CHANGES)
+        v1 = ex.fresh_int("v1", -200, 200)
+        v2 = ex.fresh_int("v2", -200, 200)
+        ch = Char(fmt, a[0], a[1], a[2], M)
+        M.check_convert_value(v1, ch)
+        ch.minValue, ch.maxValue, ch.minStep = b
+        got = M.check_convert_value(v2, ch)
+        want = M.check_convert_value(v2, Char(fmt, b[0], b[1], b[2], M))
+        ex.require(got == want, "convert: a write after the declared metadata changed is prepared with the new metadata")
         return ex.observe("ok")
     return h
 
@@ -326,6 +361,8 @@ def build(tier, mutate=None):
         units.append(Unit("build_update/value-vs-stored-value", build_update_unit(C, False), build_update_unit(real_char, True),
                           bounds={"written": "every integer -300..300", "stored": "equal to the written value / another / none", "configurations": 3},
                           regions=["the-written-value", "another-value"]))
+        units.append(Unit("convert/metadata-reassigned-between-two-writes", rewrite_unit(C), rewrite_unit(real_char),
+                          bounds={"first and second value": "every integer -200..200 each", "metadata changes": len(CHANGES)}))
     return units
 
 
